@@ -34,7 +34,6 @@ loop text plus the normalised text of every module function it transitively call
 discovery order, so renaming a helper does not matter), and the effect kinds admitted. A described
 loop needs no row: the descriptor pass makes a loop opaque as soon as its closure has one of the kinds. -/
 def deepExpected : List DeepExpect := [
-  ⟨"cisco/diff.go", "State.diffConfig", "comb[prefix]", 0, "f8688036282f6f85", []⟩,
   -- addDefaults → addDefaultObject → lookupCmd → matchCmd: `panic("Incomplete string …")` sits under the
   -- template token `"`, which no toplevel command type has (`quote_token_only_in_subcommands`).
   ⟨"cisco/parse.go", "parser.addDefaults", "defaultObjects", 0, "5412020535c91a64", ["abort"]⟩,
